@@ -245,7 +245,7 @@ func runStrategyScenario(c *fw.Case, prop string) {
 				c.Count("known_hang_shape_stuck", 1)
 				return // the state directory is not comparable any more
 			}
-			c.Violation(prop+"/liveness/request-stuck-no-job-in-flight", "the request made no progress for 20 s with no tier2 job in flight (cancelled by the harness)", s.witness(map[string]any{"history": append(history, map[string]any{"request": spec, "jobs": res.Jobs})}))
+			c.Violation(prop+"/liveness/request-stuck-no-job-in-flight", "the request made no progress for 45 s with no tier2 job in flight (cancelled by the harness)", s.witness(map[string]any{"history": append(history, map[string]any{"request": spec, "jobs": res.Jobs})}))
 			return
 		}
 		c.Logf("  -> err=%v jobs=%+v", res.Err, res.Jobs)
